@@ -5999,7 +5999,9 @@ class Parser:
             expression = this.expression
 
             if expression:
-                for arg in self.SET_OP_MODIFIERS:
+                # Sorted, so that the order in which the modifiers are attached to the set
+                # operation (and therefore its repr / serialized form) doesn't follow the hash seed
+                for arg in sorted(self.SET_OP_MODIFIERS):
                     expr = expression.args.get(arg)
                     if expr:
                         this.set(arg, expr.pop())
